@@ -1,9 +1,11 @@
 #!/bin/sh
-# usage: try_mutant.sh <prop> <patch.diff> [tier]  — apply a seeded change to /repo, run the check, undo it
+# usage: try_mutant.sh <prop> <patch.diff> [tier]  — apply a seeded change to /repo, run the check, undo it;
+# the evidence file written by that run describes the CHANGED tree: it is put back to the committed one afterwards
 prop=$1; patch=$2; tier=${3:-quick}
 cd /repo || exit 2
 git diff --quiet || { echo "repo dirty"; exit 2; }
 git apply "$patch" || { echo "PATCH-DOES-NOT-APPLY"; exit 3; }
 cd /verif && ./check "$prop" --tier "$tier" 2>&1 | grep -E "^VIOLATION|^KNOWN|^C[0-9]+:|HARNESS" | head -8
-rc=$?
 git -C /repo checkout -- . ; git -C /repo clean -fdq
+git -C /verif checkout -- "evidence/$prop.json" 2>/dev/null
+cd /verif && /venv/bin/python harness/tables.py >/dev/null 2>&1
